@@ -171,6 +171,17 @@ def run(ctx) -> list[Inst]:
                     and n.value.func.id == cname:
                 ctor, copied = n.value, n.targets[0].id
                 break
+        shallow_start = None
+        if ctor is None:
+            # `x = copy.copy(self)`: every field starts as THE SAME object as in the original
+            for n in own_nodes(f.node):
+                if isinstance(n, ast.Assign) and len(n.targets) == 1 and isinstance(n.targets[0], ast.Name) \
+                        and isinstance(n.value, ast.Call) and isinstance(n.value.func, ast.Attribute) \
+                        and isinstance(n.value.func.value, ast.Name) and n.value.func.value.id == 'copy' \
+                        and n.value.func.attr == 'copy' and n.value.args \
+                        and isinstance(n.value.args[0], ast.Name) and n.value.args[0].id == selfn:
+                    ctor, copied, shallow_start = n.value, n.targets[0].id, n
+                    break
         if ctor is None:
             insts.append(Inst(RULE, f.short, 'constructor call of the copy', 'unproven',
                               msg='no `x = %s(...)` found' % cname, file=rel, line=f.node.lineno,
@@ -179,7 +190,13 @@ def run(ctx) -> list[Inst]:
         # field order / ctor parameter -> field
         fields = [fi for fi in c.fields.values() if fi.origin in ('dataclass', 'init')]
         values: dict[str, tuple] = {}       # field -> (expr, ast stmt)
-        if c.is_dataclass:
+        if shallow_start is not None:
+            for fi in fields:
+                e_ = ast.Attribute(value=ast.Name(id=selfn, ctx=ast.Load()), attr=fi.name, ctx=ast.Load())
+                ast.copy_location(e_, shallow_start)
+                ast.fix_missing_locations(e_)
+                values[fi.name] = (e_, shallow_start)
+        elif c.is_dataclass:
             order = [fi.name for fi in c.fields.values() if fi.origin == 'dataclass']
             for i, a in enumerate(ctor.args):
                 if i < len(order):
